@@ -104,6 +104,7 @@ Section Den.
   Lemma den_rest arg d appe w : den "rest" arg d appe w = Some (body users self "rest" arg d appe w).
   Proof. unfold run_handler_prog. cbn -[str_isascii str_isdigit int_of_digits].
     destruct (str_isascii arg); [|reflexivity]. destruct (str_isdigit arg); [|reflexivity].
+    cbn -[int_of_digits Z.leb Z.of_nat]. destruct (Z.of_nat (Datatypes.length arg) <=? 18)%Z; [|reflexivity].
     cbn -[int_of_digits]. destruct (int_of_digits arg); reflexivity. Qed.
   Lemma den_epsv arg d appe w : den "epsv" arg d appe w = Some (body users self "epsv" arg d appe w).
   Proof. unfold run_handler_prog. destruct arg as [|c r]; [|reflexivity].
